@@ -36,9 +36,8 @@ def _run(runner, prop, tier, seed, t0, rule, level="model_checking", jobs=12, ex
     depth = (MODEL_QUICK if tier == "quick" else MODEL_THOROUGH).get(prop)
     if depth:
         _model(runner, prop, tier, seed, depth)
-    sessions = [s.records for s in runner.sessions]
-    res = tv.validate("%s_%s" % (prop, tier), sessions, focus=prop, jobs=jobs, chunk_events=chunk_events)
-    return finish(prop, tier, seed, runner, res, t0, level, rule, extra_cov=extra_cov)
+    runner.flush(jobs=jobs, chunk_events=chunk_events)
+    return finish(prop, tier, seed, runner, runner.res, t0, level, rule, extra_cov=extra_cov)
 
 
 def check_C02(runner, tier, seed, t0):
